@@ -1183,7 +1183,7 @@ pub fn prop() -> Prop {
         id: "C19",
         meta: Meta {
             level: "exploration",
-            rule: "S6 part A: first packets (well-formed CONNECT of the listener's version with generated client id / keep-alive / clean flag / login / will, split into 1-7 writes, optionally with packets pipelined behind it; CONNECT of the other version; wrong protocol name or level; every other packet type; every proper prefix of a CONNECT; random bytes) against listeners {v4, v5} x {no auth, static map, callback, both}; distinct = (listener, auth config, kind of first packet, client id class, clean, keep-alive class, login, will, chunking, pipelining). Part B: connect / burst / close / DISCONNECT histories over max_connections+2 recurring client ids against max_connections 1-3; distinct = (limit, sequence of operation kinds with burst sizes). S4: router half (op-kind sequence reaching a named corner state).",
+            rule: "S6 part A: first packets (well-formed CONNECT of the listener's version with generated client id / keep-alive / clean flag / login / will, split into 1-7 writes, optionally with packets pipelined behind it; CONNECT of the other version; wrong protocol name or level; every other packet type; every proper prefix of a CONNECT; random bytes) against listeners {v4, v5} x {no auth, static map, callback, both}; distinct = (listener, auth config, kind of first packet, client id class, clean, keep-alive class, login, will, chunking, pipelining). Part B: connect / burst / close / DISCONNECT histories over max_connections+2 recurring client ids against max_connections 1-3; distinct = (limit, sequence of operation kinds with burst sizes). S4: router half (op-kind sequence reaching a named corner state). For an inadmissible first packet the router's view of its sessions (connection map, saved sessions, wills, subscriptions) is compared before and after, and in every second case a connection live under the same client id must still answer a PINGREQ.",
             assumptions: &[
                 "connections are in-memory duplex pipes entered through Server::verif_accept; admission (mqtt_connect, handle_auth), RemoteLink::new and the router are the production code",
                 "with both a static map and a callback configured the statement does not say which decides: cases where they disagree are executed and counted (admission-open), not judged",
